@@ -32,6 +32,7 @@ from pathlib import Path
 REPO = Path(os.environ.get("AGP_TPF_REPO", "/repo"))
 SRC = REPO / "src" / "tola"
 HERE = Path(__file__).resolve().parent
+OUT3 = Path(__file__).resolve().parent.parent / "lean" / "AgpTpf" / "Gen" / "Imp3.lean"
 OUT2 = Path(__file__).resolve().parent.parent / "lean" / "AgpTpf" / "Gen" / "Imp2.lean"
 OUT = HERE.parent / "lean" / "AgpTpf" / "Gen" / "Imp.lean"
 
@@ -165,7 +166,8 @@ PURE_METHOD = {("frag", "abuts"): (["frag"], "bool", "(Fragment.abuts {0} {1})")
                ("scaffold", "idx_fragments"): ([], L(("tuple", ["int", "frag"])), "(PyRt.idxFragments {0}.rows)"),
                ("str", "lower"): ([], "str", "(lowerStr {0})")}
 # methods that read (may raise): (type, method) -> (arg types, result type, template of an R-term)
-IMPURE_METHOD = {("ovres", "overhang_if_start_removed"): ([], "int", "(OverlapResult.overhangIfStartRemoved {0})"),
+IMPURE_METHOD = {("frag", "junction_tuple"): (["frag"], "junction", "(junctionTuple {0} {1})"),      # tied by T1b (Gen.Kernels.Fragment_junction_tuple)
+                 ("ovres", "overhang_if_start_removed"): ([], "int", "(OverlapResult.overhangIfStartRemoved {0})"),
                  ("ovres", "overhang_if_end_removed"): ([], "int", "(OverlapResult.overhangIfEndRemoved {0})"),
                  ("ovres", "fragment_start_if_trimmed"): (["frag"], "int", "(OverlapResult.fragmentStartIfTrimmed {0} {1})"),
                  ("premise", "improves"): (["int"], "bool", "(Premise.improves {0} store {1})"),
@@ -176,7 +178,8 @@ REGEX = {r"\s*$": ("(isBlankLine {0})", "bool", "match"),
          r"[#\s]+(.+)": ("(headerText {0})", O(("match", 1)), "match"),
          r"(.+):(\d+)-(\d+)$": ("(tpfNameMatch {0})", O(("match", 3)), "match"),
          r"([A-Z]\d*|[IVX_]+|\d+[A-Z]+)": ("(isChrNameTag {0})", "bool", "fullmatch"),
-         r"^([^_]+)_.+_\d+$": ("(hapPrefixOfName {0})", O(("match", 1)), "search")}
+         r"^([^_]+)_.+_\d+$": ("(hapPrefixOfName {0})", O(("match", 1)), "search"),
+         r"([A-Za-z]+\d+)_": ("(PyRt.asmPrefixMatch {0})", O(("match", 1)), "match")}
 ERR_CATCH = {"FileExistsError": "fileExists"}
 ERR = {"ChrNamerError": "chrNamer", "TaggingError": "tagging", "ValueError": "value", "IndexError": "index", "KeyError": "key", "TypeError": "type", "NotImplementedError": "notImpl"}
 RESERVED = {"end", "from", "at", "in", "do", "then", "else", "if", "let", "have", "show", "fun", "match", "with", "where", "by", "open",
@@ -192,6 +195,7 @@ def mg(n):
 # BY NAME (see Kernel.kcall)
 SIGS = {}      # lean name -> dict(params=[(name, type)], roots=[(name, type)], ret=type, fuel=bool, spec=spec, pyargs=[python parameter names])
 KM = {}        # (python class, method) -> lean name, for the kernels whose spec says `p2=True`
+VALUE_CLASS = {"scaffold": "Scaffold"}                        # immutable-by-use value objects whose methods may be translated kernels taking `self`
 REF_CLASS = {"gref": "ChrGroup", "aref": "Assembly"}       # reference types whose objects live in an arena: class of the object
 SINK_CLASSES = ("TerminalTable",)                            # report objects: only "was an error marked" is kept (type `tabres`)
 
@@ -229,6 +233,25 @@ def DEFAULT_OF(ty):
     if isinstance(ty, tuple) and ty[0] in ("list", "dict", "set"):
         return "[]"
     return {"int": "0", "bool": "false", "str": "[]", "nat": "0"}[ty]
+
+
+def message_only(name, stmts):
+    """is every use of `name` in the statements inside a statement the translation drops (click.echo / logging.* calls, the argument of a raise),
+    with at least one such use, and is it never re-assigned there?"""
+    dropped, uses = set(), []
+    for st in stmts:
+        for n in ast.walk(st):
+            if isinstance(n, ast.Expr) and isinstance(n.value, ast.Call) and dotted(n.value.func) and (dotted(n.value.func) == "click.echo" or dotted(n.value.func).startswith("logging.")):
+                dropped |= {id(x) for x in ast.walk(n)}
+            if isinstance(n, ast.Raise):
+                dropped |= {id(x) for x in ast.walk(n)}
+    for st in stmts:
+        for n in ast.walk(st):
+            if isinstance(n, ast.Name) and n.id == name:
+                if isinstance(n.ctx, ast.Store):
+                    return False
+                uses.append(id(n) in dropped)
+    return bool(uses) and all(uses)
 
 
 def always_exits(stmts):
@@ -352,6 +375,12 @@ def assigned(stmts):
                                 add(dotted(n.func.value).replace(".", "_") + "_" + pth_[5:].replace(".", "_"))
                         else:
                             add(rn)
+            if isinstance(n, ast.Call) and isinstance(n.func, ast.Name) and n.func.id == "next" and len(n.args) == 1 and isinstance(n.args[0], ast.Name):
+                add(n.args[0].id)
+            if isinstance(n, ast.Call) and isinstance(n.func, ast.Attribute) and n.func.attr == "update":
+                r = root_of(n.func.value)
+                if r:
+                    add(r)
             if isinstance(n, ast.Call) and isinstance(n.func, ast.Name) and n.func.id == "ChrGroup":
                 add("heap_g")
             if isinstance(n, ast.Call) and isinstance(n.func, ast.Name) and n.func.id == "Assembly":
@@ -806,6 +835,9 @@ class Kernel:
                     binds.append((nm, (f"(if {acc} = true then {rhs} else .ok false)" if is_and else f"(if {acc} = true then .ok true else {rhs})"), "bool"))
                     acc = nm
             return acc, "bool"
+        if isinstance(e, ast.IfExp) and isinstance(e.test, ast.UnaryOp) and isinstance(e.test.op, ast.Not):
+            # NORMAL FORM: `B if not C else A` is `A if C else B`
+            return self.expr(ast.IfExp(test=e.test.operand, body=e.orelse, orelse=e.body), env, binds)
         if isinstance(e, ast.IfExp) and isinstance(e.body, ast.List) and len(e.body.elts) == 1 and isinstance(e.orelse, ast.List) and not e.orelse.elts \
                 and ast.dump(e.body.elts[0]) == ast.dump(e.test):
             # `[x] if x else []` for an optional object: the list of what is there
@@ -823,6 +855,22 @@ class Kernel:
             if sub:
                 raise Unsupported("impure conditional on an optional str")
             return f"(match {mg(x)} with | some (c :: cs) => (let {mg(x)} : Str := c :: cs; some {a}) | _ => none)", O(ta)
+        if isinstance(e, ast.IfExp) and isinstance(e.test, ast.Name) and self.spec.get("p2") and isinstance(env.get(e.test.id), tuple) and env[e.test.id][0] == "opt" \
+                and isinstance(env[e.test.id][1], tuple) and env[e.test.id][1][0] == "match":
+            # `f(m) if m else g` for a regex match object or None: inside the first branch m is the match
+            x = e.test.id
+            env2 = dict(env)
+            env2[x] = env[x][1]
+            sa, sb = [], []
+            a, ta = self.expr(e.body, env2, sa)
+            b, tb = self.expr(e.orelse, env, sb)
+            if sa or sb:
+                raise Unsupported("impure conditional on a match object")
+            if tb == "none" and not (isinstance(ta, tuple) and ta[0] == "opt"):
+                a, ta, b, tb = f"(some {a})", O(ta), "none", O(ta)
+            if ta != tb:
+                raise Unsupported("conditional expression with different types")
+            return f"(match {mg(x)} with | some {mg(x)} => {a} | none => {b})", ta
         if isinstance(e, ast.IfExp):
             c, tc = self.expr(e.test, env, binds)
             c = self.truthy(c, tc)
@@ -841,6 +889,8 @@ class Kernel:
                 b, tb = f"(some {b})", ta
             elif tb == O(ta):
                 a, ta = f"(some {a})", tb
+            elif tb == "none" and self.spec.get("p2") and not (isinstance(ta, tuple) and ta[0] == "opt"):
+                a, ta, tb = f"(some {a})", O(ta), O(ta)
             if ta != tb:
                 raise Unsupported("conditional expression with different types")
             if not sa and not sb:
@@ -942,6 +992,8 @@ class Kernel:
                 binds.append(("heap_a", f"{nm}.2.1", env["heap_a"], "let"))
                 self.let_log += [d, "heap_a"]
                 return f"{nm}.2.2", "aref"
+        if self.spec.get("p2") and dotted(f) == "io.StringIO" and not e.args and not e.keywords:
+            return "([] : Str)", "sink_str"        # a text buffer only ever appended to (`write`) and read whole (`getvalue`, `tell`)
         if self.spec.get("p2") and isinstance(f, ast.Name):
             r = self.p2_builtin(f.id, e, env, binds)
             if r is not None:
@@ -1416,6 +1468,18 @@ class Kernel:
             if tb in ("tsink", "tabres") and m in ("new_header", "new_row", "new_cell", "new_line"):
                 self.sink_args(e.args, env, binds)          # building the report: nothing is kept
                 return "()", "tsink"
+            if tb == "sink_str" and m == "getvalue" and not e.args:
+                return b, "str"
+            if tb == "sink_str" and m == "tell" and not e.args:
+                return f"(Int.ofNat ({b}).length)", "int"
+            if tb == "str" and m == "replace" and len(e.args) == 3 and isinstance(e.args[2], ast.Constant) and e.args[2].value == 1:
+                xs = []
+                for a in e.args[:2]:
+                    t, ty = self.expr(a, env, binds)
+                    if ty != "str":
+                        raise Unsupported("replace() argument")
+                    xs.append(t)
+                return f"(PyRt.strReplace1 {b} {xs[0]} {xs[1]})", "str"
             if tb == "str" and m == "replace" and len(e.args) == 2:
                 xs = []
                 for a in e.args:
@@ -1635,6 +1699,20 @@ class Kernel:
             binds.append((nm, f"(PyRt.gdataAppend {d} {k1} {k2} {v})", GDATA))
             lines, env2 = self.store_back(place, nm, GDATA, env)
             return self.with_binds(binds, lines + self.block(rest, env2, loop))
+        if m == "update" and len(c.args) == 1 and not c.keywords and isinstance(f.value, ast.Call) and isinstance(f.value.func, ast.Attribute) \
+                and f.value.func.attr == "setdefault" and len(f.value.args) == 2 and isinstance(f.value.func.value, ast.Name) \
+                and isinstance(f.value.args[1], ast.Call) and isinstance(f.value.args[1].func, ast.Name) and f.value.args[1].func.id == "set" and not f.value.args[1].args:
+            # d.setdefault(k, set()).update(xs): the set stored under k (a new empty one if absent) takes the union
+            d = f.value.func.value.id
+            td = env.get(d)
+            if not (isinstance(td, tuple) and td[0] == "dict" and isinstance(td[2], tuple) and td[2][0] == "set"):
+                raise Unsupported("setdefault(...).update on another dictionary shape")
+            k, tk = self.expr(f.value.args[0], env, binds)
+            k = self.coerce(k, tk, td[1])
+            v, tv = self.expr(c.args[0], env, binds)
+            if tv != td[2]:
+                raise Unsupported("update() argument type")
+            return self.with_binds(binds, [self.let(d, td, f"dSet {mg(d)} {k} (sUnion ((dGet? {mg(d)} {k}).getD []) {v})")] + self.block(rest, env, loop))
         if m == "mark_error" and not c.args and isinstance(f.value, ast.Name) and env.get(f.value.id) == "tabres":
             return [self.let(f.value.id, "tabres", "true")] + self.block(rest, env, loop)
         if m == "sort" and not c.args and {k.arg for k in c.keywords} <= {"key", "reverse"} and any(k.arg == "key" for k in c.keywords):
@@ -1717,6 +1795,8 @@ class Kernel:
             ty = env.get(self.aliases.get(v.id, v.id))
             if isinstance(ty, str) and ty in REF_CLASS and (REF_CLASS[ty], m) in KM:
                 return KM[(REF_CLASS[ty], m)], ("ref", ty, mg(self.aliases.get(v.id, v.id)))
+            if isinstance(ty, str) and ty in VALUE_CLASS and (VALUE_CLASS[ty], m) in KM and "self" in SIGS.get(KM[(VALUE_CLASS[ty], m)], {"spec": {}})["spec"].get("params", {}):
+                return KM[(VALUE_CLASS[ty], m)], ("value", mg(self.aliases.get(v.id, v.id)))
         return None
 
     def recv_read(self, recv, path, want, env, binds):
@@ -1819,6 +1899,9 @@ class Kernel:
             terms.append("fuel")
         for n, t in sig["params"]:
             base = n[:-2] if n.endswith("_v") and n[:-2] in RESERVED else n
+            if base == "self" and recv[0] == "value":
+                terms.append(recv[1])           # a method of an immutable value object: the object is the callee's `self` parameter
+                continue
             if base in cspec.get("params", {}):
                 if base not in argvals:
                     raise Unsupported(f"kernel call {lean}: argument {base} is missing")
@@ -1951,6 +2034,38 @@ class Kernel:
             handler = self.block(list(s.handlers[0].body), env, loop)
             cont = self.block(rest, env2, loop)
             return [f"match {t} with", f"| .error .{ERR_CATCH[s.handlers[0].type.id]} =>"] + ind(handler) + ["| .error e =>", "  .error e", f"| .ok ({mg(x)} : {lean_ty(ty)}) =>"] + ind(cont)
+        if isinstance(s, ast.Try) and self.spec.get("p2") and len(s.handlers) == 1 and not s.orelse and not s.finalbody and s.handlers[0].name is None \
+                and isinstance(s.handlers[0].type, ast.Name) and s.handlers[0].type.id == "StopIteration" and s.body \
+                and isinstance(s.body[0], ast.Assign) and len(s.body[0].targets) == 1 and isinstance(s.body[0].targets[0], ast.Name) \
+                and isinstance(s.body[0].value, ast.Call) and isinstance(s.body[0].value.func, ast.Name) and s.body[0].value.func.id == "next" \
+                and len(s.body[0].value.args) == 1 and not s.body[0].value.keywords:
+            # try: x = next(it); MORE   except StopIteration: HANDLER
+            # An iterator over a list is the list of the items still to come.  Only `next` raises StopIteration in the translated subset, so
+            # the handler belongs to the first statement alone — CHECKED: MORE contains no other `next(` and calls no translated kernel that uses one
+            more = list(s.body[1:])
+            for st in more:
+                for n in ast.walk(st):
+                    if isinstance(n, ast.Call) and isinstance(n.func, ast.Name) and n.func.id == "next":
+                        raise Unsupported("a second next() inside the same try")
+                    if isinstance(n, ast.Call) and isinstance(n.func, ast.Attribute) and any(m == n.func.attr and SIGS.get(l, {}).get("stopiter") for (_, m), l in KM.items()):
+                        raise Unsupported("a kernel that may raise StopIteration inside a try")
+            binds = []
+            arg = s.body[0].value.args[0]
+            it, tit = self.expr(arg, env, binds)
+            if not (isinstance(tit, tuple) and tit[0] == "list"):
+                raise Unsupported("next() of something that is not a list-backed iterator")
+            x = s.body[0].targets[0].id
+            nx = self.fresh("nx")
+            handler = self.block(list(s.handlers[0].body) + ([] if always_exits(s.handlers[0].body) else rest), env, loop)
+            env2 = dict(env)
+            lets = []
+            l, env2 = self.bind_var(x, f"{nx}.1", tit[1], env2)
+            lets.append(l)
+            if isinstance(arg, ast.Name):
+                lets.append(self.let(self.aliases.get(arg.id, arg.id), tit, f"{nx}.2"))     # the iterator moves on
+            cont = self.block(more + rest, env2, loop)
+            return self.with_binds(binds, [f"match PyRt.iterNext {it} with", "| none =>"] + ind(handler)
+                                   + [f"| some ({nx} : {lean_ty(tit[1])} × {lean_ty(tit)}) =>"] + ind(lets + cont))
         if isinstance(s, ast.Expr) and isinstance(s.value, ast.Call) and dotted(s.value.func) == "sys.exit" and len(s.value.args) == 1 \
                 and isinstance(s.value.args[0], ast.Constant) and s.value.args[0].value == 1:
             return [".error .other"]                 # SystemExit(1): the process ends with status 1 (no exception class of the model: `Err.other`)
@@ -1973,6 +2088,10 @@ class Kernel:
             return self.block(list(fn.body) + rest, env, loop)
         if any(ast.unparse(s).startswith(pfx) for pfx in self.spec.get("skip_statements", [])):
             return self.block(rest, env, loop)        # statements the kernel's spec lists as not translated (floats / reporting), see IMP_KERNELS
+        # a text that only the (dropped) messages for the user read: `report = f"…"; click.echo(report)`
+        if isinstance(s, ast.Assign) and len(s.targets) == 1 and isinstance(s.targets[0], ast.Name) and isinstance(s.value, ast.JoinedStr) and rest \
+                and message_only(s.targets[0].id, rest):
+            return self.block(rest, env, loop)
         # message for the raise that follows
         if isinstance(s, ast.Assign) and len(s.targets) == 1 and isinstance(s.targets[0], ast.Name) and isinstance(s.value, ast.JoinedStr) \
                 and rest and isinstance(rest[0], ast.Raise) and uses_only_in(rest[0], s.targets[0].id):
@@ -2667,6 +2786,16 @@ class Kernel:
         binds = []
         test = s.test
         pre, env1 = [], env
+        if s.orelse and not (len(s.orelse) == 1 and isinstance(s.orelse[0], ast.If)):
+            # NORMAL FORM: a NEGATED test with an `else` (`if not C: A else: B`, `if a not in b: …`) is written positively (`if C: B else: A`), so
+            # that flipping the two branches of an `if` in the source does not change the generated text
+            pos = None
+            if isinstance(test, ast.UnaryOp) and isinstance(test.op, ast.Not):
+                pos = test.operand
+            elif isinstance(test, ast.Compare) and len(test.ops) == 1 and isinstance(test.ops[0], ast.NotIn):
+                pos = ast.Compare(left=test.left, ops=[ast.In()], comparators=test.comparators)
+            if pos is not None:
+                return self.if_stmt(ast.If(test=pos, body=list(s.orelse), orelse=list(s.body)), rest, env, loop)
         if self.spec.get("p2") and not exits(s.body) and not exits(s.orelse):
             # a local FIRST assigned on every path of this `if` (declared in the kernel's `locals`) exists afterwards: it gets a placeholder value
             # that every path overwrites, and is then joined like the variables that existed before
@@ -3138,7 +3267,7 @@ def translate(spec):
     k.params.sort(key=lambda nt: order.index(nt[0]) if nt[0] in order else len(order))
     params = ("(fuel : Nat) " if k.uses_fuel else "") + " ".join(f"({n} : {lean_ty(t)})" for n, t in k.params)
     SIGS[lean_name] = dict(params=list(k.params), roots=list(k.roots), ret=k.ret_ty, fuel=k.uses_fuel, spec=spec,
-                           pyargs=[a.arg for a in fn.args.args if a.arg != "self"])
+                           pyargs=[a.arg for a in fn.args.args if a.arg != "self"], stopiter=any("PyRt.iterNext" in l for l in lines))
     return (f"/- translated from {rel}::{qual}\n{doc}\n-/\ndef {lean_name} {params} : R ({rty}) :=\n" + "\n".join(sink_inits + ["  " + l for l in lines]) + "\n")
 
 
@@ -3397,6 +3526,19 @@ P2_KERNELS = [
          returns=("dict", O("str"), "aref")),
 ]
 
+P3_KERNELS = [
+    # the chromosome-list CSV (C10): `csv_str` is a text buffer
+    dict(file="assembly/assembly_stats.py", qual="AssemblyStats.chromosome_name_csv", lean="AssemblyStats_chromosome_name_csv", p2=True,
+         params={"asm": "assembly"}, attr_params={"self.autosome_prefix": "str"}, returns=O("str"),
+         locals={"orig_chr_name": ("dict", O("str"), "str"), "localised": "str", "chr_name": "str"}),
+    # the junction sets the statistics compare (C11): iterators are the lists of items still to come
+    dict(file="assembly/scaffold.py", qual="Scaffold.fragment_junction_set", lean="Scaffold_fragment_junction_set", p2=True,
+         params={"self": "scaffold"}, returns=JSET, locals={"junctions": JSET}),
+    dict(file="assembly/assembly.py", qual="Assembly.fragment_junctions_by_asm_prefix", lean="Assembly_fragment_junctions_by_asm_prefix", p2=True,
+         attr_params={"self.scaffolds": L("scaffold")}, returns=("dict", O("str"), JSET),
+         locals={"prefix_junctions": ("dict", O("str"), JSET), "asm_name": O("str")}),
+]
+
 IMP_KERNELS = [
     dict(file="assembly/indexed_assembly.py", qual="IndexedAssembly.find_overlaps", lean="IndexedAssembly_find_overlaps",
          params={"bait": "frag"}, returns=O("ovres"), locals={"ovr": O("int")},
@@ -3471,6 +3613,14 @@ def main():
     txt = "\n".join(parts)
     if not OUT2.exists() or OUT2.read_text() != txt:
         OUT2.write_text(txt)
+    parts = ["/- GENERATED by harness/translate_imp.py from /repo/src — do not edit -/", "import AgpTpf.Gen.Imp2", "import AgpTpf.Model.PyRtText",
+             "set_option linter.unusedVariables false", "namespace AgpTpf.Gen.Imp", "open AgpTpf", ""]
+    for spec in P3_KERNELS:
+        parts.append(translate(spec))
+    parts.append("end AgpTpf.Gen.Imp\n")
+    txt = "\n".join(parts)
+    if not OUT3.exists() or OUT3.read_text() != txt:
+        OUT3.write_text(txt)
     return 0
 
 
